@@ -1,13 +1,169 @@
 /-
-C01 — incremental answers equal a from-scratch evaluation, for the core engine model
-(`Model/EngineCore.lean`: input, normal and external-input keys; ordered reads and unordered read
-groups).  `cur p s k` is the from-scratch value of `k` on the inputs committed in `s` and the
-external values of `s` (`evalSpec`, which never looks at cached values of normal keys); the external
-value of a key is what its executor returned at its first demand / the last `refresh` (`pinsOf`),
-and what it returns on the current world if it was never demanded (`extOf`); `Inv` is the engine
-invariant (`Lemmas/EngineCore.lean`); it holds initially and is preserved by every operation.
+C01 — incremental answers equal a from-scratch evaluation.
+
+PART 1 (namespace `Qbice.CoreFw`): the extended core engine model (`Model/EngineCore.lean`, second
+half): ALL FIVE kinds — input, normal, external, FIREWALL, PROJECTION — ordered reads and unordered
+read groups, the engine logic of the REPAIRED design (`Model/Engine.lean` with `f1p`, `f1q`, `f14`,
+`f1r`; validated line by line against that model and the from-scratch oracle).  `cur p s k` is the
+from-scratch value of `k` on the inputs committed in `s` and the external values of `s` (`evalSpec`
+never looks at cached values); `Inv` is the engine invariant (`Lemmas/EngineCoreFw1.lean`).
+
+What is proved: every theorem below for programs WITHOUT PROJECTION NODES (`NoProj p`; firewalls,
+transitive firewall sets, the trust rule, the observation refresh, dirty propagation from a changed
+firewall in the same epoch, pending backward projections are all in).  The statements for all five
+kinds are `C01_full_statement` / `C01_termination_full_statement`; they are NOT proved, and for the
+design without `f1r` they are FALSE (`repair_without_f1r_unsound_shape` documents the history; the
+model with `f1r` answers it correctly).
+
+PART 2 (namespace `Qbice.Core`): the same theorems for the firewall-free core model (the model of
+C07 / C08), unchanged.
 -/
+import QbiceVerif.Lemmas.EngineCoreFwEx
 import QbiceVerif.Lemmas.EngineCoreEx
+namespace Qbice.CoreFw
+open Qbice.Core (Prog Err Write SetRes Op OpOut Ref Sat applyWrites writeResults applyWorld)
+
+/-- the full statement: for every ranked program of the five kinds, every value returned by every
+    round of every history equals the from-scratch value on the inputs committed at that point, and
+    every write result is the reference one -/
+def C01_full_statement : Prop :=
+  ∀ (p : Program), WF p → ∀ (ops : List Op) (outs : List OpOut) (s' : St),
+    runOps p ops {} = .ok (outs, s') → OutOK p ops outs Ref.init
+
+/-- … and no history run with `fuelFor p` runs out of fuel -/
+def C01_termination_full_statement : Prop :=
+  ∀ (p : Program), WF p → ∀ ops : List Op, runOps p ops {} ≠ .error .outOfFuel
+
+/-- "every value returned by a query equals the value a from-scratch evaluation on the currently
+    committed inputs would produce": a successful query BY THE USER in a state satisfying the
+    invariant returns `cur p s k`, keeps the invariant, and changes neither the committed inputs nor
+    the epoch, nor the external values, nor the world.
+    PARTIAL: programs without projection nodes. -/
+theorem core_query_sound_partial {p : Program} (wf : WF p) (np : NoProj p) {s : St} (inv : Inv p s)
+    {k fuel : Nat} (hk : k < fuel) {v : Val} {s' : St} (h : query p fuel .user k s = .ok (v, s')) :
+    cur p s k = some v ∧ Inv p s' ∧ inputsOf s' = inputsOf s ∧ s'.epoch = s.epoch ∧
+      extOf p s' = extOf p s ∧ s'.world = s.world := by
+  obtain ⟨i, f, _, c, _⟩ := (query_spec wf np hk inv).ok h
+  exact ⟨c, i, f.inputs, f.epoch, f.ext, f.world⟩
+
+/-- the inner statement: every value handed to an executor (or compared by `check_callee`) — the
+    result of a request by a QUERY caller, pedantic or not — equals `cur`; likewise for the
+    `RepairFirewall` caller.  PARTIAL: programs without projection nodes. -/
+theorem core_inner_query_sound_partial {p : Program} (wf : WF p) (np : NoProj p) {s : St} (inv : Inv p s)
+    {k fuel : Nat} (hk : k < fuel) {v : Val} {s' : St} :
+    (∀ c rv ped, query p fuel (.query c rv ped) k s = .ok (v, s') → cur p s k = some v ∧ Inv p s') ∧
+    (query p fuel .repairFirewall k s = .ok (v, s') → cur p s k = some v ∧ Inv p s') := by
+  refine ⟨fun c rv ped h => ?_, fun h => ?_⟩
+  · obtain ⟨i, _, _, c, _⟩ := (queryQ_spec wf np fuel ped k hk s inv).ok h
+    exact ⟨c, i⟩
+  · obtain ⟨i, _, _, c, _⟩ := (queryF_spec wf np fuel k hk s inv).ok h
+    exact ⟨c, i⟩
+
+/-- non-vacuity: the firewall diamond `exF` after a session that changed the firewall's input (the
+    firewall's value changes from 1 to 0): the user's query re-executes the firewall and everything
+    above it and returns the from-scratch value -/
+example : WF exF ∧ NoProj exF ∧ Inv exF exFU ∧ 5 < fuelFor exF ∧ cur exF exFU 5 = some 5 ∧
+    (query exF (fuelFor exF) .user 5 exFU).toOption.map (fun r => (r.1, r.2.log)) = some (5, [2, 3, 4, 5]) :=
+  ⟨exF_wf, exF_noProj, exFU_inv, by decide, by decide, by decide⟩
+
+/-- non-vacuity: a session that the firewall ABSORBS (its input changes 1 → 2, its value stays 1):
+    only the firewall is re-executed; the nodes above it are answered through clean, trusted edges -/
+example : WF exF ∧ NoProj exF ∧ Inv exF exFS ∧ cur exF exFS 5 = some 16 ∧
+    (query exF (fuelFor exF) .user 5 exFS).toOption.map (fun r => (r.1, r.2.log)) = some (16, [2]) :=
+  ⟨exF_wf, exF_noProj, exFS_inv, by decide, by decide⟩
+
+/-- non-vacuity with the shape of finding F1b: key 6 has firewall set `{3}`, its dependency 5 has
+    switched to the equal-valued firewall 4 while only 5 was queried, and firewall 4's input has
+    changed since: the clean edge `(6, 5)`… is dirty, the edge `(5, 4)` is clean but NOT trusted
+    (firewall 4 is not verified in this epoch): it is repaired, and the answer is the from-scratch 8 -/
+example : WF exA ∧ NoProj exA ∧ Inv exA exAS ∧ (exAS.nodes 6).map (·.tfc) = some [3] ∧
+    (exAS.nodes 5).map (·.tfc) = some [4] ∧ exAS.dirty 5 4 = false ∧ trusted exAS 4 = false ∧
+    cur exA exAS 6 = some 8 ∧
+    (query exA (fuelFor exA) .user 6 exAS).toOption.map (fun r => (r.1, r.2.log)) = some (8, [4, 5, 6]) :=
+  ⟨exA_wf, exA_noProj, exAS_inv, by decide, by decide, by decide, by decide, by decide, by decide⟩
+
+/-- "an input session (epoch bump, writes, commit with dirty propagation) re-establishes the engine
+    invariant; each write reports Fresh / Updated / Unchanged exactly by presence / equality of the
+    previously committed value, and the committed inputs afterwards are the previous ones overridden
+    by the writes in order"; world and pinned external values as in the reference (`applyWorld`,
+    `applyRefresh`).  (No hypothesis on the program beyond what `Inv` says about the nodes.) -/
+theorem core_session_inv {p : Program} {s : St} (inv : Inv p s) {ws : List Write}
+    {rs : List SetRes} {s' : St} (h : session p ws s = .ok (rs, s')) :
+    Inv p s' ∧ rs = writeResults ws (inputsOf s) ∧
+      inputsOf s' = applyWrites ws (inputsOf s) ∧ s'.epoch = s.epoch + 1 ∧
+      s'.world = applyWorld ws s.world ∧
+      pinsOf s' = applyRefresh p (applyWorld ws s.world) ws (pinsOf s) := by
+  obtain ⟨a, b, c, d, e, f, _⟩ := session_spec inv h
+  exact ⟨a, b, c, d, e, f⟩
+
+example : Inv exF exFT ∧
+    (session exF [.set 0 0, .set 1 5] exFT).toOption.map (·.1) = some [.updated, .unchanged] :=
+  ⟨exFT_inv, by decide⟩
+
+/-- "for every history of sessions and rounds run from the initial state, every value returned by
+    every round equals the from-scratch value on the inputs committed at that point (and every write
+    result is the reference one)"; the final state satisfies the invariant.
+    PARTIAL: programs without projection nodes (`C01_full_statement` is the statement for all). -/
+theorem core_history_sound_partial {p : Program} (wf : WF p) (np : NoProj p) {ops : List Op}
+    {outs : List OpOut} {s' : St} (h : runOps p ops {} = .ok (outs, s')) :
+    OutOK p ops outs Ref.init ∧ Inv p s' :=
+  (runOps_spec wf np ops {} (Inv.init p)).ok h
+
+/-- termination is a conclusion, not an assumption: with fuel above the key a query by the user in a
+    state satisfying the invariant never runs out of fuel — this includes the recursion through
+    `repair_transitive_firewall_callees`.  PARTIAL: programs without projection nodes. -/
+theorem core_query_no_out_of_fuel_partial {p : Program} (wf : WF p) (np : NoProj p) {s : St}
+    (inv : Inv p s) {k fuel : Nat} (hk : k < fuel) : query p fuel .user k s ≠ .error .outOfFuel :=
+  (query_spec wf np hk inv).not_oof
+
+/-- … and no history run with `fuelFor p` ever runs out of fuel.  PARTIAL: no projection nodes. -/
+theorem core_history_no_out_of_fuel_partial {p : Program} (wf : WF p) (np : NoProj p) (ops : List Op) :
+    runOps p ops {} ≠ .error .outOfFuel :=
+  (runOps_spec wf np ops {} (Inv.init p)).not_oof
+
+/-- non-vacuity: the firewall diamond: session 2 is absorbed by the firewall (only key 2 runs),
+    session 3 changes it (everything above runs) -/
+example : WF exF ∧ NoProj exF ∧ (runOps exF exDOps {}).toOption.map (·.1) =
+    some [.sess [.fresh, .fresh], .round [16] [2, 3, 4, 5], .sess [.updated], .round [16] [2],
+      .sess [.updated], .round [5] [2, 3, 4, 5]] :=
+  ⟨exF_wf, exF_noProj, by decide⟩
+
+/-- non-vacuity, finding F1b's shape: a dependency switches between two equal-valued firewalls under
+    a node that is not re-queried; then the second firewall changes: the answer is 8 (today's
+    implementation answers 7) -/
+example : WF exA ∧ NoProj exA ∧ (runOps exA exAOps {}).toOption.map (·.1) =
+    some [.sess [.fresh, .fresh, .fresh], .round [7] [3, 5, 6], .sess [.updated], .round [7] [4, 5],
+      .sess [.updated], .round [8] [4, 5, 6]] :=
+  ⟨exA_wf, exA_noProj, by decide⟩
+
+/-- the model with all five kinds (outside the proved fragment; validated by correspondence): the
+    diamond with a firewall AND A PROJECTION: session 2 is absorbed (only the firewall runs); session
+    3 changes the firewall: the projection 3 is re-run by backward projection (before key 5 is
+    repaired), then keys 4 and 5 -/
+example : WF exD ∧ (runOps exD exDOps {}).toOption.map (·.1) =
+    some [.sess [.fresh, .fresh], .round [16] [2, 3, 4, 5], .sess [.updated], .round [16] [2],
+      .sess [.updated], .round [5] [2, 3, 4, 5]] :=
+  ⟨exD_wf, by decide⟩
+
+/-- the order inside the last round of the previous example: firewall, projection (by backward
+    projection, while the transitive firewall callees of key 5 are repaired), then 4 and 5 -/
+example : (match runOps exD (exDOps.take 5) {} with
+    | .ok (_, s) => (query exD (fuelFor exD) .user 5 { s with log := [] }).toOption.map (fun r => (r.1, r.2.log))
+    | .error _ => none) = some (5, [2, 3, 4, 5]) := by decide
+
+/-- finding F1c (projection re-run with the same value but a larger firewall set), the history that
+    the repair `f1p + f1q + f14` WITHOUT `f1r` answers with the stale 5 (so does today's
+    implementation; replay `corpus/engine-acyclic/F1c.txt`): this model (`f1r`: a projection published
+    with a changed set is treated like one whose value changed) answers 6, the from-scratch value -/
+theorem repair_without_f1r_unsound_shape : WF exC ∧ (runOps exC exCOps {}).toOption.map (·.1) =
+    some [.sess [.fresh, .fresh], .round [5] [2, 4, 5, 6], .sess [.updated], .round [5] [2, 3, 4],
+      .sess [.updated], .round [6] [3, 4, 5, 6]] :=
+  ⟨exC_wf, by decide⟩
+
+end Qbice.CoreFw
+
+-- ====================================================================== PART 2: firewall-free model
+
 namespace Qbice.Core
 
 /-- "every value returned by a query equals the value a from-scratch evaluation on the currently
